@@ -239,7 +239,7 @@ class Online:
             r = rng.random()
             if r < self.bad_rate:
                 kinds = ["past", "first-offset-nonzero", "offsets-not-increasing", "indices-not-increasing", "blocks-overlap",
-                         "offset-past-end", "length-mismatch", "negative-index"]
+                         "offset-past-end", "length-mismatch", "negative-index", "late-defect-in-many-blocks"]
                 if cc.mode != "gapped":
                     pass
                 ch.bad(rng.choice(kinds))
